@@ -18,6 +18,8 @@ MEMBERS = [
     {"k": "cpp_member", "doc": 1, "types": ["int", "str", "args"], "params": ["_m_a", "b"], "impl": "macro"},
     {"k": "cpp_member", "doc": 1, "types": ["int"], "params": ["_m_a", "b", "c"]},
     {"k": "cpp_member", "doc": 0, "types": ["args"], "params": [], "impl": "macro"},
+    {"k": "cpp_member", "doc": 1, "types": ["int", "desc", "str"], "params": ["row", "col", "value"],
+     "doctext": ["Fills a cell.", "", ":param row: the row", ":type row: index"]},
     {"k": "cpp_constructor", "doc": 1, "types": ["int"], "params": ["x"]},
     {"k": "cpp_constructor", "doc": 0, "types": [], "params": [], "impl": "macro"},
 ]
@@ -41,6 +43,8 @@ def enabled(events, maxnest):
     out += [{"k": "set", "doc": 0}, {"k": "cmake_parse_arguments"}, {"k": "option", "doc": 0}, {"k": "generic", "doc": 1}]
     if st:
         out.append({"k": "close"})
+        if st[-1][0] == "cpp_class":
+            out.append({"k": "close", "doc": 1})     # a doccomment directly before cpp_end_class()
     return out
 
 
